@@ -121,16 +121,8 @@ func c15(p *model.Prog, r *report.Result) {
 	}
 	r.Check(okQ && okT, "C15.R1", fkey(mcp, "queue", "modConnProps"), p.Pos(mcp.Pos()), "ModWriteChanSize(wChanSize>0) on every path, ModWriteTimeoutMs(>0) for subscribers", "rtmp.ServerSession no longer gets a positive write queue / write timeout")
 	doPlay := p.Method("pkg/rtmp", "ServerSession", "doPlay")
-	onNewSub := ifaceMethod(p, "pkg/rtmp", "IServerSessionObserver", "OnNewRtmpSubSession")
-	okDom := false
-	for _, a := range model.CallsTo(doPlay, p.MethodObj("pkg/rtmp", "ServerSession", "modConnProps")) {
-		for _, b := range model.CallsTo(doPlay, onNewSub) {
-			if model.InstrDominates(a, b) {
-				okDom = true
-			}
-		}
-	}
-	r.Check(okDom, "C15.R1", fkey(doPlay, "queue", "before-attach"), p.Pos(doPlay.Pos()), "the queue is configured before the session is announced to the group", "an RTMP subscriber is attached to the group before its write queue exists")
+	okDom, domPos := connPropsBeforeObserver(p, "doPlay", "OnNewRtmpSubSession")
+	r.Check(okDom, "C15.R1", fkey(doPlay, "queue", "before-attach"), domPos, "the queue is configured before the session is announced to the group", "an RTMP subscriber is attached to the group before its write queue exists")
 	// who selects Block
 	for _, fn := range p.LalFuncs() {
 		for _, st := range model.FieldStores(fn, wfb) {
@@ -281,6 +273,7 @@ func c15(p *model.Prog, r *report.Result) {
 	c15r5(p, r)
 	w5SweepReached(p, r, "C15.R6")
 	w5PlayConnProps(p, r, "C15.R7")
+	w6AliveSnapshot(p, r, "C15.R8")
 }
 
 func loadOfGlobal(v ssa.Value) (*ssa.Global, bool) {
